@@ -21,11 +21,12 @@ namespace DirectVerif.Pipeline
 /-! ## keys, configuration, stages -/
 
 /-- tensor-valued keys of the sample dict (`filename`, `slice_no`, `is_ssl`, `scaling_diff`,
-`original_size` are metadata and live in `Meta` / are ignored); `t1`, `t2` are stage-local temporaries -/
+`original_size` are metadata and live in `Meta` / are ignored); `t1 … t5` are stage-local temporaries
+(the locals of a `forward` method that hold tensors) -/
 inductive Key
   | kspace | maskedKspace | samplingMask | acsMask | padding | sensitivityMap | scalingFactor | target
   | bodyCoilImage | inputMaskedKspace | targetMaskedKspace | inputSamplingMask | targetSamplingMask
-  | inputKspace | t1 | t2
+  | inputKspace | t1 | t2 | t3 | t4 | t5
   deriving DecidableEq, Repr, Inhabited
 
 /-- `ReconstructionType` -/
@@ -168,7 +169,7 @@ def build (c : Config) : List Stage :=
 /-- external linear operators (FFT based / data movement / interpolation): parameters of the model,
 assumed homogeneous of degree 1 (recorded assumption) -/
 inductive Lin
-  | bwd | crop (center seeded : Bool) | cropMask | rescale | pad | rotate | flip | reverse | compress
+  | bwd | fwd | crop (center seeded : Bool) | cropMask | rescale | pad | rotate | flip | reverse | compress
   | gaussWeight | id
   deriving DecidableEq, Repr, Inhabited
 
@@ -179,11 +180,13 @@ inductive Op
   | lin (l : Lin)                  -- [x]
   | applyMask                      -- [m, x]   where(m == 0, 0, x)
   | applyPadding                   -- [p, x]   where(p == 1, 0, x)
-  | sumAbs                         -- [x]      Σ_{coil,slice} |x|          (per pixel)
+  | sumSlices                      -- [x]      Σ_slice x                   (`x.sum(0)` of a 3-D sample; identity in 2-D)
   | threshold (p : ThrPred)        -- [x]      x <  mean(x)·eps            (0/1 per pixel)
   | extMask (src : MaskSrc) (seed : Option (List SeedField)) (shapeFromCrop : Bool)   -- [x] (shape of x only)
   | rss                            -- [x]      sqrt Σ_{coil,complex} x²    (per pixel)
   | safeDiv                        -- [y, x]   where(y == 0, 0, x / y), y broadcast
+  | divUnsafe                      -- [y, x]   x / y without the guard (not used by the current code)
+  | copy                           -- [x]      x
   | unitMap                        -- [x]      zeros_like(x) with real part 1
   | kthModulus                     -- [x]      −kthvalue(−|x| of the non-zero coils, k)   (precondition: some coil is
                                    --          non-zero — `torch.kthvalue` raises on an empty tensor; the model yields 0)
@@ -210,15 +213,21 @@ def Key.prefixed (input : Bool) : Key → Key
   | .samplingMask => if input then .inputSamplingMask else .targetSamplingMask
   | k => k
 
-/-- each transform class as a short program (mirrors the `__call__` / `forward` bodies) -/
+/-- each transform class as a short program: which sample keys its `forward` / `__call__` reads and writes,
+under which presence guards, and which primitive it applies.  Locals holding tensors are temporaries
+`t1 … t5` unless their value ends up under a sample key that is not touched in between (then they live
+in that key).  `Gen.C08.compile` is this function translated from the current source; `Bridge/C08.lean`
+proves them equal. -/
 def compile : Stage → List Instr
   | .toTensor => [.require .kspace]
   | .cropKspace center useSeed =>
-      [.assign [] .kspace (.lin (.crop center useSeed)) [.kspace],
+      [.assign [] .kspace (.lin .bwd) [.kspace],
+       .assign [] .kspace (.lin (.crop center useSeed)) [.kspace],
        .assign [.samplingMask] .samplingMask (.lin .cropMask) [.samplingMask],
-       .assign [.samplingMask] .acsMask (.lin .cropMask) [.acsMask]]
-  | .rescaleKspace k => [.assign [] k (.lin .rescale) [k]]
-  | .padKspace k => [.assign [] k (.lin .pad) [k]]
+       .assign [.samplingMask] .acsMask (.lin .cropMask) [.acsMask],
+       .assign [] .kspace (.lin .fwd) [.kspace]]
+  | .rescaleKspace k => [.assign [] k (.lin .bwd) [k], .assign [] k (.lin .rescale) [k], .assign [] k (.lin .fwd) [k]]
+  | .padKspace k => [.assign [] k (.lin .bwd) [k], .assign [] k (.lin .pad) [k], .assign [] k (.lin .fwd) [k]]
   | .randomRotation => [.assign [] .kspace (.lin .rotate) [.kspace],
                         .assign [.sensitivityMap] .sensitivityMap (.lin .rotate) [.sensitivityMap]]
   | .randomFlip => [.assign [] .kspace (.lin .flip) [.kspace],
@@ -226,7 +235,8 @@ def compile : Stage → List Instr
   | .randomReverse => [.assign [] .kspace (.lin .reverse) [.kspace],
                        .assign [.sensitivityMap] .sensitivityMap (.lin .reverse) [.sensitivityMap]]
   | .computeZeroPadding kk pk thr =>
-      [.assign [] .t1 .sumAbs [kk], .assign [] pk (.threshold thr) [.t1], .delete .t1]
+      [.assign [] pk .modulus [kk], .assign [] pk .sumCoils [pk], .assign [] pk .sumSlices [pk],
+       .assign [] pk (.threshold thr) [pk]]
   | .applyZeroPadding kk pk => [.assign [] kk .applyPadding [pk, kk]]
   | .createSamplingMask fromCrop seed returnAcs =>
       [.assign [] .samplingMask (.extMask .sampling seed fromCrop) [.kspace],
@@ -235,34 +245,38 @@ def compile : Stage → List Instr
   | .compressCoil k => [.assign [] k (.lin .compress) [k]]
   | .padCoilDimension k => [.assign [k] k .padCoils [k]]
   | .estimateBodyCoilImage seed =>
-      [.assign [] .t1 (.extMask .acs seed false) [.kspace], .assign [] .t1 .applyMask [.t1, .kspace],
-       .assign [] .t1 (.lin .bwd) [.t1], .assign [] .bodyCoilImage .rss [.t1], .delete .t1]
+      [.assign [] .t1 (.extMask .acs seed false) [.kspace], .assign [] .bodyCoilImage .applyMask [.t1, .kspace],
+       .assign [] .bodyCoilImage (.lin .bwd) [.bodyCoilImage], .assign [] .bodyCoilImage .rss [.bodyCoilImage],
+       .delete .t1]
   | .estimateSensitivityMap kk ty gaussian =>
       (match ty with
-       | .unit => [.assign [] .sensitivityMap .unitMap [kk]]
+       | .unit =>
+           [.assign [] .t1 .unitMap [kk], .assign [] .t2 .rss [.t1], .assign [] .sensitivityMap .safeDiv [.t2, .t1],
+            .delete .t1, .delete .t2]
+       | .espirit =>
+           [.assign [] .t1 .espirit [kk], .assign [] .t2 .rss [.t1], .assign [] .sensitivityMap .safeDiv [.t2, .t1],
+            .delete .t1, .delete .t2]
        | .rssEstimate =>
            [.assign [] .t1 .applyMask [.acsMask, kk]]
            ++ (if gaussian then [.assign [] .t1 (.lin .gaussWeight) [.t1]] else [])
-           ++ [.assign [] .t1 (.lin .bwd) [.t1], .assign [] .t2 .rss [.t1],
-               .assign [] .sensitivityMap .safeDiv [.t2, .t1]]
-       | .espirit => [.assign [] .sensitivityMap .espirit [kk]])
-      ++ [.assign [] .t2 .rss [.sensitivityMap],
-          .assign [] .sensitivityMap .safeDiv [.t2, .sensitivityMap], .delete .t1, .delete .t2]
+           ++ [.assign [] .t2 (.lin .bwd) [.t1], .assign [] .t3 .rss [.t2], .assign [] .t4 .safeDiv [.t3, .t2],
+               .assign [] .t5 .rss [.t4], .assign [] .sensitivityMap .safeDiv [.t5, .t4],
+               .delete .t1, .delete .t2, .delete .t3, .delete .t4, .delete .t5])
   | .deleteKeys ks => ks.map .delete
   | .renameKeys olds news => (olds.zip news).map fun (o, n) => .move o n
   | .applyMask mk ik ok => [.require ik, .require mk, .assign [] ok .applyMask [mk, ik]]
   | .computeScalingFactor nk pct sfk =>
       (match nk with
-       | .given => [.assign [] sfk (.lin .id) [.scalingFactor]]
+       | .given => [.assign [] sfk .copy [.scalingFactor]]
        | .none => [.assign [] sfk .constOne [.maskedKspace]]
        | .key k => [.assign [] sfk (if pct then .kthModulus else .maxModulus) [k]])
   | .normalize sfk keys => keys.map fun k => .assign [sfk, k] k .safeDiv [sfk, k]
   | .computeImage kk tk r =>
       (match r with
        | .ifft => [.assign [] tk (.lin .bwd) [kk]]
+       | .rss => [.assign [] tk (.lin .bwd) [kk], .assign [] tk .rss [tk]]
        | .complex => [.assign [] tk (.lin .bwd) [kk], .assign [] tk .sumCoils [tk]]
        | .complexMod => [.assign [] tk (.lin .bwd) [kk], .assign [] tk .sumCoils [tk], .assign [] tk .modulus [tk]]
-       | .rss => [.assign [] .t1 (.lin .bwd) [kk], .assign [] tk .rss [.t1], .delete .t1]
        | .sense => [.assign [] .t1 (.lin .bwd) [kk], .require .sensitivityMap,
                     .assign [] tk .senseCombine [.sensitivityMap, .t1], .delete .t1]
        | .senseMod => [.assign [] .t1 (.lin .bwd) [kk], .require .sensitivityMap,
@@ -271,8 +285,7 @@ def compile : Stage → List Instr
   | .addBooleanKeys => []
   | .maskSplitter ty keepAcs seed kk =>
       let margs := [Key.samplingMask] ++ (if keepAcs then [Key.acsMask] else [])
-      [.require kk,
-       .assign [] .inputSamplingMask (.split true ty seed) margs,
+      [.assign [] .inputSamplingMask (.split true ty seed) margs,
        .assign [] .targetSamplingMask (.split false ty seed) margs,
        .assign [] (kk.prefixed true) .applyMask [.inputSamplingMask, kk],
        .assign [] (kk.prefixed false) .applyMask [.targetSamplingMask, kk]]
@@ -325,6 +338,7 @@ def seedVal (m : Meta) : List SeedField → List Nat
 stands for the unseeded global RNG state (`unseeded` then supplies whatever that state is). -/
 structure Ext (K : Type) where
   lin : Lin → Meta → Val K → Val K
+  crop : (center : Bool) → (seed : Option (List Nat)) → Val K → Val K   -- image-space crop, centred or at a seeded offset
   mask : MaskSrc → (seed : Option (List Nat)) → (fromCrop : Bool) → (nc ns len : Nat) → List Bool
   split : (input : Bool) → Split → (seed : Option (List Nat)) → List (List Bool) → List Bool
   eps : K
@@ -402,13 +416,17 @@ def conjMul (S : Ops K) : List K → List K → List K
       S.add (S.mul sr xr) (S.mul si xi) :: S.add (S.mul sr xi) (S.neg (S.mul si xr)) :: conjMul S s x
   | _, _ => []
 
+/-- `CropKspace`'s random-crop seed: `tuple(map(ord, str(sample["filename"])))` -/
+def cropSeedFields : List SeedField := [.filename]
+
 def evalOp (S : Ops K) (X : Ext K) (m : Meta) : Op → List (Val K) → Val K
+  | .lin (.crop center seeded), [x] => X.crop center (if seeded then some (seedVal m cropSeedFields) else none) x
   | .lin l, [x] => X.lin l m x
   | .applyMask, [mk, x] =>
       { x with data := mapIdx (fun i v => if S.isZero (bget S mk.data x.stride i) then S.zero else v) x.data }
   | .applyPadding, [p, x] =>
       { x with data := mapIdx (fun i v => if S.isZero (bget S p.data x.stride i) then v else S.zero) x.data }
-  | .sumAbs, [x] => { data := sumBlocks S (x.nc * x.ns) (modulusL S x.data) }
+  | .sumSlices, [x] => { nc := x.nc, cplx := x.cplx, data := sumBlocks S x.ns x.data }
   | .threshold p, [x] =>
       let mean := S.div (sumList S x.data) (S.ofNat x.data.length)
       { data := x.data.map fun v => b2k S (evalThr S X.eps p v mean) }
@@ -418,6 +436,8 @@ def evalOp (S : Ops K) (X : Ext K) (m : Meta) : Op → List (Val K) → Val K
   | .safeDiv, [y, x] =>
       { x with data := mapIdx (fun i v => let d := bget S y.data x.stride i
                                          if S.isZero d then S.zero else S.div v d) x.data }
+  | .divUnsafe, [y, x] => { x with data := mapIdx (fun i v => S.div v (bget S y.data x.stride i)) x.data }
+  | .copy, [x] => x
   | .unitMap, [x] => { x with data := mapIdx (fun i _ => if i % 2 = 0 then S.one else S.zero) x.data }
   | .kthModulus, [x] =>
       let sel := modulusL S (nonzeroCoils S (x.data.length / x.nc) x.nc x.data)
@@ -521,11 +541,13 @@ def opDeg : Op → List Int → Except Err Int
   | .lin _, [x] => .ok x
   | .applyMask, [m, x] => if m = 0 then .ok x else .error (.typeError .samplingMask)
   | .applyPadding, [p, x] => if p = 0 then .ok x else .error (.typeError .padding)
-  | .sumAbs, [x] => .ok x
+  | .sumSlices, [x] => .ok x
   | .threshold p, [_] => if p.homogeneous then .ok 0 else .error (.typeError .padding)
   | .extMask _ _ _, [_] => .ok 0
   | .rss, [x] => .ok x
   | .safeDiv, [y, x] => .ok (x - y)
+  | .divUnsafe, [y, x] => .ok (x - y)
+  | .copy, [x] => .ok x
   | .unitMap, [_] => .ok 0
   | .kthModulus, [x] => .ok x
   | .maxModulus, [x] => .ok x
@@ -559,7 +581,7 @@ def degIsOrAbsent (e : TEnv) (k : Key) (d : Int) : Bool :=
 def finalOk (ssl : Bool) (e : TEnv) : Bool :=
   degIs e .scalingFactor 1 && normalisedKeys.all (fun k => degIsOrAbsent e k 0)
   && degIs e .target 0 && (if ssl then degIs e .inputKspace 0 && degIs e .kspace 0 else degIs e .maskedKspace 0)
-  && (e .t1).isNone && (e .t2).isNone
+  && [Key.t1, .t2, .t3, .t4, .t5].all (fun k => (e k).isNone)
 
 /-- **well-typedness of a stage list**: it type-checks from the raw sample, the scaling factor has
 degree 1, every normalised key that is present has degree 0, the network inputs are present and no
@@ -596,11 +618,13 @@ def opSp : Op → List Sp → Except Err Sp
   | .lin l, [x] => .ok (l.sp x)
   | .applyMask, [m, x] => if spCompat m x then .ok x else .error (.shapeMismatch .samplingMask)
   | .applyPadding, [p, x] => if spCompat p x then .ok x else .error (.shapeMismatch .padding)
-  | .sumAbs, [x] => .ok x
+  | .sumSlices, [x] => .ok x
   | .threshold _, [x] => .ok x
   | .extMask _ _ fromCrop, [x] => .ok (if fromCrop then .cropped else x)
   | .rss, [x] => .ok x
   | .safeDiv, [y, x] => if spCompat y x then .ok x else .error (.shapeMismatch .scalingFactor)
+  | .divUnsafe, [y, x] => if spCompat y x then .ok x else .error (.shapeMismatch .scalingFactor)
+  | .copy, [x] => .ok x
   | .unitMap, [x] => .ok x
   | .kthModulus, [_] => .ok .scalar
   | .maxModulus, [_] => .ok .scalar
@@ -632,5 +656,45 @@ def seedsOk : List Instr → Bool
       ((dst != .samplingMask && dst != .acsMask) || fields.all (· == .filename)) && seedsOk r
   | .assign _ dst (.extMask _ none _) _ :: r => dst != .samplingMask && dst != .acsMask && seedsOk r
   | _ :: r => seedsOk r
+
+/-! ## `ModuleWrapper` (`toggle_dims=True`): batch-of-one toggling around a module -/
+
+/-- a tensor with its shape -/
+structure Shaped (α : Type) where
+  shape : List Nat
+  data : List α
+  deriving DecidableEq, Repr
+
+/-- `v[None]` -/
+def Shaped.unsqueeze0 {α} (t : Shaped α) : Shaped α := { t with shape := 1 :: t.shape }
+/-- `v.squeeze(0)`: drops the leading axis when it has length one -/
+def Shaped.squeeze0 {α} (t : Shaped α) : Shaped α :=
+  match t.shape with
+  | 1 :: r => { t with shape := r }
+  | _ => t
+
+/-- an entry of the sample dict: a tensor, a plain value, or (inside the wrapper) a list of values -/
+inductive Entry (α β : Type)
+  | tensor (t : Shaped α)
+  | val (v : β)
+  | vals (l : List β)
+  deriving DecidableEq, Repr
+
+/-- `sample[k] = v[None]` for tensors / arrays, `[v]` otherwise -/
+def Entry.toggleIn {α β} : Entry α β → Entry α β
+  | .tensor t => .tensor t.unsqueeze0
+  | .val v => .vals [v]
+  | .vals l => .vals l
+/-- `sample[k] = v.squeeze(0)` for tensors, `v[0]` otherwise -/
+def Entry.toggleOut {α β} : Entry α β → Entry α β
+  | .tensor t => .tensor t.squeeze0
+  | .vals (v :: _) => .val v
+  | e => e
+
+abbrev WSample (α β : Type) := Key → Option (Entry α β)
+
+/-- `SubWrapper.__call__` with `toggle_dims`: toggle in, run `forward`, toggle out -/
+def wrapToggle {α β} (forward : WSample α β → WSample α β) (s : WSample α β) : WSample α β :=
+  fun k => (forward (fun k' => (s k').map Entry.toggleIn) k).map Entry.toggleOut
 
 end DirectVerif.Pipeline
